@@ -184,6 +184,16 @@ func pickOp(rt *rapid.T, p *Profile, label string) string {
 
 var opOrder = []string{"CloseListenerSocket", "CloseControl", "Allocate", "Refresh", "CreatePermission", "ChannelBind", "Send", "ChannelData", "PeerData", "Binding", "Sleep", "RelayError", "CloseServer", "Connect", "ConnectionBind", "PeerConnect", "TCPData", "TCPClose", "Hostile"}
 
+// hostileTCP: in the C09 profile a quarter of the Allocates ask for a TCP relay (a peer-less
+// allocation that Send indications, ChannelData and hostile datagrams then hit), elsewhere an eighth
+func hostileTCP(p *Profile) int {
+	if p.Name == "C09" {
+		return 1
+	}
+
+	return 0
+}
+
 func genLen(rt *rapid.T, p *Profile, label string) int {
 	if p.BigData {
 		return rapid.OneOf(
@@ -233,7 +243,7 @@ func genStep(rt *rapid.T, p *Profile, cfg *Config, i int) Step { //nolint:cyclop
 		}
 		st.Retx = rapid.IntRange(0, 5).Draw(rt, "retx") == 0
 		st.RespLost = rapid.IntRange(0, 9).Draw(rt, "allocRespLost") == 0
-		if (p.Teardown || p.Odd) && !cfg.isStream(st.C) && rapid.IntRange(0, 7).Draw(rt, "tcpAlloc") == 0 {
+		if (p.Teardown || p.Odd || p.Name == "C09") && !cfg.isStream(st.C) && rapid.IntRange(0, 7).Draw(rt, "tcpAlloc") <= hostileTCP(p) {
 			st.Tcp = true // a TCP relay asked for over the datagram listener (this server grants it)
 		}
 		if !st.Retx && rapid.IntRange(0, 5).Draw(rt, "afterRefresh0") == 0 {
